@@ -106,7 +106,9 @@ CHECKS = {
    ref="§4 C20"),
 }
 STATEFUL = ("; stateful workloads: the same object used twice, look-alike requests back to back in one process (siblings, decoys), "
-            "inputs asserted unchanged, repeated requests must meet the same random choice points")
+            "inputs asserted unchanged, repeated requests must meet the same random choice points; scale / magnitude slices "
+            "(8-12 candidates, dozens of ballots, weights 10^-20..10^18, near-ties one unit apart beyond 2^53) and non-default "
+            "options / argument types where the property covers them")
 
 
 def main():
